@@ -161,13 +161,15 @@ def handle_trace_string_global(parser, events):
 
 def handle_trace_string_newthread(parser, events):
     event = TraceStringNewthread(events, events[0].data.replace(b'\x00', b'').decode())
-    parser.pids_names[parser.last_data_newthread.pid] = event.name
+    if parser.last_data_newthread is not None:
+        parser.pids_names[parser.last_data_newthread.pid] = event.name
     return event
 
 
 def handle_trace_string_exec(parser, events):
     event = TraceStringExec(events, events[0].data.replace(b'\x00', b'').decode())
-    parser.pids_names[parser.last_data_exec.pid] = event.name
+    if parser.last_data_exec is not None:
+        parser.pids_names[parser.last_data_exec.pid] = event.name
     return event
 
 
